@@ -71,8 +71,16 @@ impl MechSet {
 def metadata_unit(plan):
     from vlib import read_repo, extract_fn, split_statements, VerusUnit, AnchorLost, find_code, match_brace
     import re
-    items, fns = [SET_PRELUDE], {}
+    FILTER_STANDINS = """
+impl IndexSet {
+  // std's `a.iter().filter(|x| b.contains(*x)).cloned().collect()` / the negated test: the elements of a that are (not) in b -- NOT what the kernels use (they
+  // call the dependency's intersection / difference); named so that such a rewrite is judged, not lost
+  #[verifier::external_body] pub fn filter_in(&self, o: &IndexSet) -> (r: IndexSet) ensures r.view() == self.view().intersect(o.view()) { unimplemented!() }
+  #[verifier::external_body] pub fn filter_not_in(&self, o: &IndexSet) -> (r: IndexSet) ensures r.view() == self.view().difference(o.view()) { unimplemented!() }
+}
+"""
     for op, spec_op in SETOPS:
+        items, fns = [SET_PRELUDE, FILTER_STANDINS], {}
         rel = "machines/set/src/operations/%s.rs" % op
         try:
             text = read_repo(rel)
@@ -87,6 +95,8 @@ def metadata_unit(plan):
             rest = [s for s in stm if not re.match(r"let (out_ptr|lhs_ptr|rhs_ptr)\s*:", s)]
             if len(ptr) != 3:
                 raise AnchorLost("solve(): expected the three pointer bindings out_ptr / lhs_ptr / rhs_ptr")
+            rest = [re.sub(r"\b([\w\.]+)\.iter\(\)\.filter\(\s*\|x\|\s*(!?)\s*([\w\.]+)\.contains\(\s*\*x\s*\)\s*\)\.cloned\(\)\.collect\(\)",
+                           lambda mm: "%s.%s(%s)" % (mm.group(1), "filter_not_in" if mm.group(2) else "filter_in", mm.group(3)), x) for x in rest]
             if any("self." in s for s in rest):
                 raise AnchorLost("solve(): statements after the pointer bindings still mention self")
         except AnchorLost as e:
@@ -109,10 +119,9 @@ def metadata_unit(plan):
         fns[fn] = "C14.metadata.%s" % op
         plan.ob(fns[fn], "verus", "proved", functions=[rel + ": solve"],
                 what="out.set is exactly the %s the dependency returns; reported size == number of elements; kind == kind of the elements (Empty when empty)" % op.replace("_", " "))
-    if not fns:
-        return
-    items.append(vlib.verus_canary("canary_meta", "x: u64", []))
-    plan.verus.append(VerusUnit("c14_metadata", vlib.verus_file(items), fns, ["canary_meta"]))
+        # one Verus file per operation: a kernel that drifts out of the rules loses only its own obligation
+        items.append(vlib.verus_canary("canary_meta_" + op, "x: u64", []))
+        plan.verus.append(VerusUnit("c14_metadata_" + op, vlib.verus_file(items), fns, ["canary_meta_" + op]))
     plan.dropped.append("set operations: of each solve() the statements inside `unsafe { }` after the three raw-pointer bindings (out_ptr, lhs_ptr, rhs_ptr) are copied verbatim into a function over `&mut MechSet, &MechSet, &MechSet`; IndexSet, its iterators, Value::kind and ValueKind are an ASSUMED specification (finite set of element identities)")
 
 
